@@ -20,22 +20,10 @@ import (
 // is explained by the class itself. Shrinking keeps the attribution (a candidate is accepted only
 // if the same class — or none, like the original — explains it).
 //
-//	using-error-in-other-file    `predeclared identifier itea not used` is raised by whichever file's package
-//	     check happens to finish next while a `using` statement of ANOTHER file is still unresolved
-//	     (compilation.finalizeUsingStatements(tc) runs over the compilation-wide iteaToUsingCheck at the
-//	     end of every checkPackage, with that package's tc.path): path = the rendered/imported file,
-//	     position = the `using` keyword of the statement in the other file.
-//	     culprit test: message; another served file F has the keyword `using` at Start and
-//	     line:column are those of Start in F.
 //	import-cycle-path-is-package the *CycleError of ParseProgram has the IMPORT PATH of the package that closes
 //	     the cycle as path (parser_program.go: `path: p.Path`), the position is that of the import
 //	     declaration in the importing file. culprit test: message ends with `import cycle not allowed`;
 //	     the path is no file; the program's import graph (read with go/parser) has a cycle through it.
-//	scope-error-path-of-extending-file  errors raised by the scopes (labels: not defined, defined and not used;
-//	     goto jumps) carry scopes.path, which is set once from the file that is built; when that file
-//	     extends another, the nodes of the LAYOUT are checked with tc.path = layout but scopes.path =
-//	     extending file. culprit test: message is one of the scopes' messages; the path is the built
-//	     file, which extends; the position is that of the label's name in a file of its extends chain.
 //	limit-error-location  the limit-exceeded errors of the emitter take their path from the function builder, which for
 //	     the functions of a PROGRAM is the package name (`main:2:1: int registers count exceeded 127` for an excess in
 //	     func main of main.go), and the synthetic function that initialises the package-level variables ($initvars,
@@ -50,13 +38,16 @@ import (
 //	     in the initialisers reads `index.html:0:0`. culprit test: a template build; message `<kind> count exceeded <n>`;
 //	     position 0:0; the path is a file of the case that declares file-level variables with initialisers (read with a
 //	     regular expression) and that extends or is imported by a file of the case (path resolved against the referrer).
+//
+// Cured by the second fix series, classes DELETED (nothing attributes a failure to them any more; their probes
+// stay in classProbes as plain oracle inputs, so the defect coming back is a VIOLATION with a failing input):
+// using-error-in-other-file (7c0e322), scope-error-path-of-extending-file (b1abf6a).
 type findingClass struct {
 	id      string
 	explain func(b lexh.BuildCase, r lexh.BuildResult, clause string) bool
 }
 
 var extendsRe = regexp.MustCompile(`\{%%?-?\s*extends\s*"([^"]+)"`)
-var scopeMsgRe = regexp.MustCompile(`^(?:(?:break|continue|goto) label not defined: (\w+)|label (\w+) not defined|label (\w+) defined and not used|goto (\w+) jumps (?:into|over) .*)$`)
 
 func fileOf(b lexh.BuildCase, p string) ([]byte, bool) {
 	d, ok := b.Files[strings.TrimPrefix(p, "/")]
@@ -171,20 +162,6 @@ var findingClasses = []findingClass{
 		}
 		return false
 	}},
-	{"using-error-in-other-file", func(b lexh.BuildCase, r lexh.BuildResult, clause string) bool {
-		if b.Program() || r.Msg != "predeclared identifier itea not used" || clause == "path-is-a-file-the-build-read" {
-			return false
-		}
-		for n, d := range b.Files {
-			if n == strings.TrimPrefix(r.Path, "/") {
-				continue
-			}
-			if r.Start >= 0 && r.Start+5 <= len(d) && string(d[r.Start:r.Start+5]) == "using" && posIn(d, r) {
-				return true
-			}
-		}
-		return false
-	}},
 	{"import-cycle-path-is-package", func(b lexh.BuildCase, r lexh.BuildResult, clause string) bool {
 		if !b.Program() || clause != "path-is-a-file-the-build-read" || !strings.HasSuffix(r.Msg, ": import cycle not allowed") {
 			return false
@@ -193,42 +170,6 @@ var findingClasses = []findingClass{
 			return false
 		}
 		return onImportCycle(b, r.Path)
-	}},
-	{"scope-error-path-of-extending-file", func(b lexh.BuildCase, r lexh.BuildResult, clause string) bool {
-		if b.Program() || clause == "path-is-a-file-the-build-read" || strings.TrimPrefix(r.Path, "/") != b.Entry {
-			return false
-		}
-		m := scopeMsgRe.FindStringSubmatch(r.Msg)
-		if m == nil {
-			return false
-		}
-		label := m[1] + m[2] + m[3] + m[4]
-		// the extends chain of the built file
-		cur, seen := b.Entry, map[string]bool{}
-		for !seen[cur] {
-			seen[cur] = true
-			d, ok := b.Files[cur]
-			if !ok {
-				return false
-			}
-			e := extendsRe.FindSubmatch(d)
-			if e == nil {
-				return false
-			}
-			next := string(e[1])
-			if !strings.HasPrefix(next, "/") {
-				next = path.Join(path.Dir(cur), next)
-			}
-			cur = strings.TrimPrefix(next, "/")
-			l, ok := b.Files[cur]
-			if !ok {
-				return false
-			}
-			if r.Start >= 0 && r.Start+len(label) <= len(l) && string(l[r.Start:r.Start+len(label)]) == label && posIn(l, r) {
-				return true
-			}
-		}
-		return false
 	}},
 }
 
@@ -366,7 +307,7 @@ func classProbes() []classProbe {
 			t("template-initvars-no-position", false, "index.html", "index.html", "{% import \"i.html\" %}\n", "i.html", "{% macro M %}"+vars(200, f)+"{% end %}")
 		}
 	}
-	// using-error-in-other-file: a using statement (itea used or not) x a render before it, in its body, after it;
+	// using-error-in-other-file (cured by 7c0e322, class deleted: plain oracle inputs now; `predicted` = failed before the repair): a using statement (itea used or not) x a render before it, in its body, after it;
 	// the using statement in the built file or in a rendered file that renders a third file; padding so
 	// that the position is not a position of the other file by accident
 	for _, pad := range []string{"", "some text\n", "<p>\n\n"} {
@@ -412,7 +353,7 @@ func classProbes() []classProbe {
 		p("import-cycle-path-is-package", false, "go.mod", mod, "main.go", "package main\n"+imp("m/a", "m/b")+"func main() {}\n", "a/a.go", "package a\n"+imp("m/b"), "b/b.go", "package b\n")
 		p("import-cycle-path-is-package", false, "go.mod", mod, "main.go", "package main\n"+imp("m/a")+"func main() {}\n", "a/a.go", "package a\n")
 	}
-	// scope-error-path-of-extending-file: label misuse in the layout / in a macro of the extending file / in a file
+	// scope-error-path-of-extending-file (cured by b1abf6a, class deleted: plain oracle inputs now): label misuse in the layout / in a macro of the extending file / in a file
 	// that extends nothing; the extending file is short, so that the layout's position is not one of its own
 	for _, pad := range []string{"<html>\n<body>\n", "<html><head><title>t</title></head><body>"} {
 		for _, bad := range []string{"{% break L %}", "{% continue L %}", "{% for %}{% break L %}{% end %}", "{% for %}{% continue L %}{% end %}", "{% L: for %}{% for %}{% break M %}{% end %}{% end %}"} {
